@@ -22,7 +22,12 @@
 (***************************************************************************)
 EXTENDS Sem
 
-Delay(p, d) == IF d > 0 THEN [op |-> "onceT", l |-> p, a |-> d, b |-> d] ELSE p
+\* a delay of d samples: once[d,d] in the STL pastifier, a chain of d (weak) prev in the LTL pastifier ("ltlDelay")
+RECURSIVE PrevN(_, _)
+PrevN(p, d) == IF d <= 0 THEN p ELSE [op |-> "prev", l |-> PrevN(p, d - 1)]
+DelayD(p, d, Dev) == IF d <= 0 THEN p
+                     ELSE IF "ltlDelay" \in Dev THEN PrevN(p, d)
+                     ELSE [op |-> "onceT", l |-> p, a |-> d, b |-> d]
 
 RECURSIVE Hz(_, _)
 Hz(p, Dev) ==
@@ -42,7 +47,7 @@ RECURSIVE Pst(_, _, _)
 Pst(p, H, Dev) ==
   LET nh == Hz(p, Dev)
       d  == H - nh IN
-  IF p.op = "var" THEN Delay(p, H)
+  IF p.op = "var" THEN DelayD(p, H, Dev)
   ELSE IF p.op = "const" THEN p
   ELSE IF p.op \in {"next", "snext"} THEN Pst(p.l, H - 1, Dev)
   ELSE IF p.op = "evT" THEN
@@ -58,15 +63,15 @@ Pst(p, H, Dev) ==
   ELSE IF p.op = "histT" THEN
        (IF d > 0 /\ "histLost" \in Dev
         THEN [op |-> "onceT", l |-> Pst(p.l, nh, Dev), a |-> d, b |-> d]
-        ELSE Delay([op |-> "histT", l |-> Pst(p.l, nh, Dev), a |-> p.a, b |-> p.b], d))
+        ELSE DelayD([op |-> "histT", l |-> Pst(p.l, nh, Dev), a |-> p.a, b |-> p.b], d, Dev))
   ELSE IF p.op \in {"sinceT", "precT"} THEN
-       Delay([op |-> p.op, l |-> Pst(p.l, nh, Dev), r |-> Pst(p.r, nh, Dev), a |-> p.a, b |-> p.b], d)
+       DelayD([op |-> p.op, l |-> Pst(p.l, nh, Dev), r |-> Pst(p.r, nh, Dev), a |-> p.a, b |-> p.b], d, Dev)
   ELSE IF p.op \in {"neg", "ln"} /\ "negDropped" \in Dev THEN Pst(p.l, H, Dev)
   ELSE IF p.op = "log" /\ "negDropped" \in Dev THEN Pst(p.r, H, Dev)
   ELSE IF p.op = "pred" THEN
-       Delay([op |-> "pred", cmp |-> p.cmp, l |-> Pst(p.l, nh, Dev), r |-> Pst(p.r, nh, Dev)], d)
-  ELSE IF p.op \in Un1 THEN Delay([op |-> p.op, l |-> Pst(p.l, nh, Dev)], d)
-  ELSE Delay([op |-> p.op, l |-> Pst(p.l, nh, Dev), r |-> Pst(p.r, nh, Dev)], d)
+       DelayD([op |-> "pred", cmp |-> p.cmp, l |-> Pst(p.l, nh, Dev), r |-> Pst(p.r, nh, Dev)], d, Dev)
+  ELSE IF p.op \in Un1 THEN DelayD([op |-> p.op, l |-> Pst(p.l, nh, Dev)], d, Dev)
+  ELSE DelayD([op |-> p.op, l |-> Pst(p.l, nh, Dev), r |-> Pst(p.r, nh, Dev)], d, Dev)
 
 Pastify(p, Dev) == Pst(p, Hz(p, Dev), Dev)
 
